@@ -278,6 +278,7 @@ func init() {
 		// ---- sections ----
 		c07Sections(c)
 		c07CompositeComplete(c)
+		c07ContentFinalBeforeWrite(c)
 		// ---- codec-agreement ----
 		c07Codec(c)
 	})
@@ -512,4 +513,81 @@ func c07CompositeComplete(c *Ctx) {
 		c.und("composite-complete", "core accessors", "", "no composite-assembling accessor found")
 	}
 	c.needFixture("composite-complete")
+}
+
+// c07ContentFinalBeforeWrite: in every closure of the state backends that serialises a block (writeBlockContent), nothing
+// that can still modify the block or its state update runs after the serialisation: every later call that is handed the
+// block / header / state update only reads it. (Signing after the header was encoded leaves the stored header without the
+// signatures the in-memory block carries.)
+func c07ContentFinalBeforeWrite(c *Ctx) {
+	p := c.P
+	// does fn (or a same-package callee, depth ≤ 2) store into a core.Block / core.Header / core.StateUpdate?
+	var mutates func(fn *ssa.Function, depth int) bool
+	memo := map[*ssa.Function]bool{}
+	mutates = func(fn *ssa.Function, depth int) bool {
+		if fn == nil || len(fn.Blocks) == 0 || depth > 2 {
+			return false
+		}
+		if v, ok := memo[fn]; ok {
+			return v
+		}
+		memo[fn] = false
+		res := false
+		allInstrs(fn, func(in ssa.Instruction) {
+			if st, ok := in.(*ssa.Store); ok {
+				if fa, ok := st.Addr.(*ssa.FieldAddr); ok {
+					if _, fresh := fa.X.(*ssa.Alloc); !fresh {
+						for _, tn := range []string{"Block", "Header", "StateUpdate"} {
+							if isNamed(fa.X.Type(), "core", tn) {
+								res = true
+							}
+						}
+					}
+				}
+			}
+		})
+		if !res {
+			for _, s := range sitesOf(fn) {
+				if s.Callee != nil && s.Callee.Pkg == fn.Pkg && mutates(s.Callee, depth+1) {
+					res = true
+				}
+			}
+		}
+		memo[fn] = res
+		return res
+	}
+	n := 0
+	for _, fn := range p.sortedFuncs() {
+		if pkgRelOf(fn) != "blockchain/statebackend" || fn.Origin() != nil || strings.HasSuffix(p.Pos(fnPos(fn)), "_test.go") {
+			continue
+		}
+		ss := sitesOf(fn)
+		for _, w := range ss {
+			if w.CalleeName() != "blockchain/statebackend.writeBlockContent" {
+				continue
+			}
+			n++
+			bad := ""
+			for _, s := range ss {
+				if s.Instr == w.Instr || s.Callee == nil || !dominatesInstr(w.Instr, s.Instr) {
+					continue
+				}
+				takesBlock := false
+				for _, a := range s.Args() {
+					for _, tn := range []string{"Block", "Header", "StateUpdate"} {
+						if isNamed(a.Type(), "core", tn) {
+							takesBlock = true
+						}
+					}
+				}
+				if takesBlock && mutates(s.Callee, 0) {
+					bad = s.Callee.Name() + " at " + p.Pos(s.Pos())
+				}
+			}
+			c.check(bad == "", "content-final", qname(fn)+" → writeBlockContent", p.Pos(w.Pos()), "no call that can modify the block runs after it was serialised", "the block is modified by "+bad+" after writeBlockContent encoded it: what is stored differs from the block the node finalised (e.g. the stored header lacks the signatures)")
+		}
+	}
+	if n < 4 {
+		c.und("content-final", "statebackend closures", "", fmt.Sprintf("only %d writeBlockContent sites found", n))
+	}
 }
